@@ -18,3 +18,5 @@ def run(rep: Report, repo: Repo, tier: str) -> None:
     # relative indentation of the doccomment lines and the paragraph prefixes every line uniformly
     misc_rules.rule_clean_parameters(rep, repo, "C07-R5")
     writer_rules.rule_paragraph(rep, repo, "C07-R5p")
+    from . import bindings
+    bindings.rule_module_doc_verbatim(rep, repo, "C07-R5m")
